@@ -139,35 +139,41 @@ def C17_exclude_conj_full_statement : Prop :=
 /-- **reduction by a Python range is exact on every environment whose interpreter lies in the range**:
 structural induction over `reduce_by_python_constraint`, including the `MarkerUnion` shortcut and the three
 answers of `SingleMarker.reduce_by_python_constraint`; C07's `of` / `intersect` soundness is used as proved.
-`ReduceCtx ev G P pc py` collects, at the environment under consideration (leaf truth `ev`, interpreter `py`
+`ReduceCtx ev G P W pc py` collects, at the environment under consideration (leaf truth `ev`, interpreter `py`
 with `pc.allows py`; `P`: the shape of the input's python leaves), the leaf specification and what is used from C11 (`pyConstraint_exact` for leaves and
 python-only markers, `createNested_exact` through `parse_marker`), C12 (`allows_all` yes / `allows_any` no
 soundness at `py`), canonical spelling of the variables and `ReparseNames`. -/
-theorem reduce_exact_partial {ev : Leaf → Bool} {G P : Leaf → Prop} (pc : VC) (py : Version)
-    (C : ReduceCtx ev G P pc py) (m r : M) (hg : M.Good (fun l => G l ∧ P l) m) (h : M.reduce pc m = .ok r) :
+theorem reduce_exact_partial {ev : Leaf → Bool} {G P : Leaf → Prop} {W : VC → Prop} (pc : VC) (py : Version)
+    (C : ReduceCtx ev G P W pc py) (m r : M) (hg : M.Good (fun l => G l ∧ P l) m) (h : M.reduce pc m = .ok r) :
     M.Good G r ∧ M.sem ev r = M.sem ev m :=
   reduce_exact_aux C m r hg h
 
-/-- **the same against poetry's own `validate`**, with what C11 contributes discharged (`reduceCtx_poetry`:
+/-- **the same against poetry's own `validate`**, with what C11 and C12 contribute discharged (`reduceCtx_poetry`:
 `pyConstraint_exact` for the python leaves of the input, `createNested_exact` through `parse_marker`, canonical
-names): for a Python range `pc` of C11's domain admitting interpreter `X.Y.Z`, a marker whose leaves are what
-`_compact_markers` builds (`CompLeaf E`), its python leaves of the exact shape (`PyShaped`), the reduced marker
-validates on the environment of `X.Y.Z` to the same value as the original.  Remaining hypotheses: the leaf
-specification `S`, `ReparseNames`, C12's two answers at the probe (`AllowsSound`), and `pyConstraint_exact` for the
-python-only sub-unions of the `MarkerUnion` shortcut (`hlow`). -/
+names, and C12's `allows_all` yes / `allows_any` no at the probe for constraints of C05's regular setting): for a
+Python range `pc` of C11's domain that is a well-formed constraint (`PyVCok`) and admits interpreter `X.Y.Z`, a
+marker whose leaves are what `_compact_markers` builds (`CompLeaf E`), its python leaves of the exact shape
+(`PyShaped`), the reduced marker validates on the environment of `X.Y.Z` to the same value as the original.
+Remaining hypotheses: the leaf specification `S`, `ReparseNames`, and `pyConstraint_exact` for the python-only
+sub-unions of the `MarkerUnion` shortcut (`hlow`). -/
 theorem reduce_exact_validate_partial (E : Env) (X Y Z : Nat) (hE : EnvPy E X Y Z)
     (S : LeafSpec (leafEval E) (CompLeaf E)) (HR : ReparseNames) (pc : VC) (hd : PyDomVC pc = true)
-    (hpc : pc.allowsPlain (pyV X Y Z) = true) (hAS : AllowsSound pc (pyV X Y Z))
+    (hpcok : PyVCok pc) (hpc : pc.allowsPlain (pyV X Y Z) = true)
     (hlow : ∀ (u : M) (g : VC), M.Good (CompLeaf E) u → (∀ n ∈ M.vars u, n ∈ pyNames) → gpc u = .ok g →
-      g.allowsPlain (pyV X Y Z) = true → M.sem (leafEval E) u = true)
+      PyVCok g ∧ (g.allowsPlain (pyV X Y Z) = true → M.sem (leafEval E) u = true))
     (m r : M) (hg : M.Good (fun l => CompLeaf E l ∧ PyShaped l) m) (h : M.reduce pc m = .ok r) :
     M.validate E r = M.validate E m := by
-  have C := reduceCtx_poetry E X Y Z hE S HR pc hd hpc hAS hlow
+  have C := reduceCtx_poetry E X Y Z hE S HR pc hd hpcok hpc hlow
   have hr := reduce_exact_aux C m r hg h
   have hev : ∀ x, M.Good (CompLeaf E) x → M.Evaluable E x := fun x hx =>
     M.good_mono (fun l hl => by obtain ⟨s, _, _, hb, _⟩ := hl; exact hb) x hx
   rw [M.validate_eq_sem E r (hev r hr.1),
     M.validate_eq_sem E m (hev m (M.good_mono (fun l hl => hl.1) m hg)), hr.2]
+
+/-- the project ranges of the hypothesis exist: `>=3.8,<3.11` is in C11's domain and a well-formed constraint -/
+example : PyDomVC (.single (.rng ⟨some (finalV [3, 8]), some (finalV [3, 11]), true, false⟩)) = true ∧
+    PyVCok (.single (.rng ⟨some (finalV [3, 8]), some (finalV [3, 11]), true, false⟩)) :=
+  ⟨by decide, ok_both _ _ (pb _) (pb _) (by decide)⟩
 
 /-- a leaf on another variable is returned unchanged, whatever the range -/
 example (pc : VC) : M.reduce pc (.leaf lSys) = .ok (.leaf lSys) := rfl
